@@ -5,6 +5,7 @@ package main
 
 import (
 	"fmt"
+	"os"
 	"go/token"
 	"go/types"
 	"strings"
@@ -67,9 +68,11 @@ type frame struct {
 	up   *frame          // caller's frame (nil: the analysed function itself)
 }
 
-// retInfo records, per inlined call on the current path, the values its taken Return returned.
+// retInfo records, per inlined call on the current path, the values its taken Return returned. It keeps the latest
+// Return per call instruction only, and values are interned (see internRet) so that states can be compared.
 type retInfo struct {
 	call    ssa.Instruction
+	ret     *ssa.Return
 	results []ssa.Value
 	up      *retInfo
 }
@@ -140,8 +143,36 @@ func (q *Cut) Run() *Witness {
 		ret *retInfo
 	}
 	type key struct {
-		p  pt
-		fr *frame
+		p   pt
+		fr  *frame
+		ret *retInfo
+	}
+	// interned return contexts: (call, return, up-without-that-call) → canonical object
+	type rkey struct {
+		call ssa.Instruction
+		ret  *ssa.Return
+		up   *retInfo
+	}
+	interned := map[rkey]*retInfo{}
+	var without func(r *retInfo, call ssa.Instruction) *retInfo
+	var internRet func(call ssa.Instruction, rt *ssa.Return, up *retInfo) *retInfo
+	without = func(r *retInfo, call ssa.Instruction) *retInfo {
+		if r == nil {
+			return nil
+		}
+		if r.call == call {
+			return without(r.up, call)
+		}
+		return internRet(r.call, r.ret, without(r.up, call))
+	}
+	internRet = func(call ssa.Instruction, rt *ssa.Return, up *retInfo) *retInfo {
+		k := rkey{call, rt, up}
+		if x, ok := interned[k]; ok {
+			return x
+		}
+		x := &retInfo{call: call, ret: rt, results: retResults0(rt), up: up}
+		interned[k] = x
+		return x
 	}
 	type node struct {
 		st   state
@@ -161,7 +192,7 @@ func (q *Cut) Run() *Witness {
 	}
 	seen := map[key]bool{}
 	push := func(st state, prev int) {
-		k := key{st.p, st.fr}
+		k := key{st.p, st.fr, st.ret}
 		if seen[k] {
 			return
 		}
@@ -208,13 +239,17 @@ func (q *Cut) Run() *Witness {
 	for h := 0; h < len(nodes); h++ {
 		n := nodes[h]
 		b, i := n.st.p.b, n.st.p.i
+		if os.Getenv("UQ_DEBUG_CUT") != "" {
+			fmt.Printf("    cut[%s] visit %s block %d idx %d depth %d\n", q.Fn.Name(), b.Parent().Name(), b.Index, i, depthOf(n.st.fr))
+		}
 		fr, ret := n.st.fr, n.st.ret
 		stopped := false
 		for ; i < len(b.Instrs); i++ {
 			in := b.Instrs[i]
 			// the return of an inlined helper is not an exit of the analysed function: continue in the caller
 			if r, isRet := in.(*ssa.Return); isRet && fr != nil {
-				ri := &retInfo{call: fr.call, results: retResults(r), up: ret}
+				// only the most recent helper return is remembered: results are tested right after the call
+				ri := internRet(fr.call, r, nil)
 				cb := fr.call.Block()
 				for k, x := range cb.Instrs {
 					if x == fr.call {
